@@ -39,6 +39,11 @@ func DecodeURL(logger s3log.AuditLogger, mm *metrics.Manager) fiber.Handler {
 			!backend.IsPathComponent(ctx.Query("uploadId")) {
 			return controllers.SendResponse(ctx, s3err.GetAPIError(s3err.ErrInvalidURI), &controllers.MetaOpts{Logger: logger, MetricsMng: mm})
 		}
+		// an upload id that is given is not empty: an empty one would name
+		// the directory that holds all uploads of the key
+		if args := ctx.Request().URI().QueryArgs(); args.Has("uploadId") && len(args.Peek("uploadId")) == 0 {
+			return controllers.SendResponse(ctx, s3err.GetAPIError(s3err.ErrNoSuchUpload), &controllers.MetaOpts{Logger: logger, MetricsMng: mm})
+		}
 		ctx.Path(unescp)
 		return ctx.Next()
 	}
